@@ -7,6 +7,8 @@ import (
 	"github.com/glyphlang/glyph/internal/zzverif"
 	"github.com/glyphlang/glyph/pkg/ast"
 	"github.com/glyphlang/glyph/pkg/interpreter"
+	"github.com/glyphlang/glyph/pkg/redis"
+	"github.com/glyphlang/glyph/pkg/mongodb"
 	"github.com/glyphlang/glyph/pkg/parser"
 )
 
@@ -224,4 +226,47 @@ func VerifC12_Twin() {
 	interpreter.CallMethod(p, name, int64(1))
 	zzverif.Assert(p.calls == 0, "twin-must-fail")
 	zzverif.Reach("twin")
+}
+
+// The providers `glyph run` injects by default (the in-memory MongoDB and Redis
+// mocks): every allow-listed operation called with nulls, scalars, arrays and
+// objects in every argument position ends in a value or an error.
+func VerifC12_MockProviderArguments() {
+	mongoOps := []string{"FindOne", "Find", "InsertOne", "InsertMany", "UpdateOne", "UpdateMany", "DeleteOne", "DeleteMany", "CountDocuments", "Aggregate", "CreateIndex", "DropIndex"}
+	redisOps := []string{"Get", "Set", "Del", "Exists", "Expire", "Ttl", "Incr", "Decr", "HGet", "HSet", "HDel", "HGetAll", "LPush", "RPush", "LPop", "LRange", "Keys"}
+	var obj interface{}
+	var m string
+	if zzverif.Bool("redis") {
+		obj, m = redis.NewMockHandler(), redisOps[zzverif.Choice("redis op", len(redisOps))]
+	} else {
+		obj, m = mongodb.NewMockHandler().Collection("c"), mongoOps[zzverif.Choice("mongo op", len(mongoOps))]
+	}
+	n := zzverif.Choice("nargs", 4)
+	var args []interface{}
+	shape := ""
+	for k := 0; k < n; k++ {
+		switch zzverif.Choice("arg", 6) {
+		case 0:
+			args, shape = append(args, nil), shape+" null"
+		case 1:
+			args, shape = append(args, int64(zzverif.Choice("int", 3))-1), shape+" int"
+		case 2:
+			args, shape = append(args, "k"), shape+" str"
+		case 3:
+			args, shape = append(args, []interface{}{nil, map[string]interface{}{"k": int64(1)}}), shape+" arr-null-obj"
+		case 4:
+			args, shape = append(args, map[string]interface{}{"k": nil, "$set": map[string]interface{}{"k": int64(2)}}), shape+" obj"
+		default:
+			args, shape = append(args, true), shape+" bool"
+		}
+	}
+	func() {
+		defer func() {
+			if r := recover(); r != nil {
+				zzverif.Fail("mock-provider-call-panics " + m + "(" + shape + " )")
+			}
+		}()
+		interpreter.CallMethod(obj, m, args...)
+	}()
+	zzverif.Reach("mock-arguments")
 }
